@@ -225,6 +225,78 @@ end Ax
 
 namespace Ax
 
+theorem writeProduct_same {s s' : Machine} {w p} (h : writeProduct s w p = .ok s') : SameCtl s s' := by
+  unfold writeProduct at h
+  split at h
+  · exact (writeReg_same h).1
+  · split at h
+    · rename_i s1 h1
+      exact (writeReg_same h1).1.trans (writeReg_same h).1
+    · cases h
+    · cases h
+
+theorem writeQuotRem_same {s s' : Machine} {w q r} (h : writeQuotRem s w q r = .ok s') : SameCtl s s' := by
+  unfold writeQuotRem at h
+  split at h
+  · rename_i s1 h1
+    exact (writeReg_same h1).1.trans (writeReg_same h).1
+  · cases h
+  · cases h
+
+theorem mulFlags_same {s s' : Machine} {fw ovf} (h : mulFlags s fw ovf = .ok s') : SameCtl s s' :=
+  (setFlagsW_same h).1
+
+macro "mul_leaf" h:ident : tactic => `(tactic|
+  first
+    | (cases $h:ident; done)
+    | (simp only [reduceCtorEq] at $h:ident; done)
+    | exact (mulFlags_same $h)
+    | exact (writeQuotRem_same $h)
+    | exact ((writeProduct_same ‹_›).trans (mulFlags_same $h))
+    | exact ((writeReg_same ‹_›).1.trans (mulFlags_same $h)))
+
+theorem execMul_same {s s' : Machine} {i w} (h : execMul s i w = .ok s') : SameCtl s s' := by
+  unfold execMul at h
+  repeat' split at h
+  all_goals try dsimp only at h
+  repeat' split at h
+  all_goals mul_leaf h
+
+theorem execImul1_same {s s' : Machine} {i w} (h : execImul1 s i w = .ok s') : SameCtl s s' := by
+  unfold execImul1 at h
+  repeat' split at h
+  all_goals try dsimp only at h
+  repeat' split at h
+  all_goals mul_leaf h
+
+theorem execImul2_same {s s' : Machine} {i w} (h : execImul2 s i w = .ok s') : SameCtl s s' := by
+  unfold execImul2 at h
+  repeat' split at h
+  all_goals try dsimp only at h
+  repeat' split at h
+  all_goals mul_leaf h
+
+theorem execImul3_same {s s' : Machine} {i w} (h : execImul3 s i w = .ok s') : SameCtl s s' := by
+  unfold execImul3 at h
+  repeat' split at h
+  all_goals try dsimp only at h
+  repeat' split at h
+  all_goals mul_leaf h
+
+theorem execDiv_same {s s' : Machine} {i w} (h : execDiv s i w = .ok s') : SameCtl s s' := by
+  unfold execDiv at h
+  repeat' split at h
+  all_goals try dsimp only at h
+  repeat' split at h
+  all_goals mul_leaf h
+
+theorem execIdiv_same {s s' : Machine} {i w} (h : execIdiv s i w = .ok s') : SameCtl s s' := by
+  unfold execIdiv at h
+  repeat' split at h
+  all_goals try dsimp only at h
+  repeat' split at h
+  all_goals mul_leaf h
+
 theorem withMem_same {s s' : Machine} {r : Out Mem} (h : s.withMem r = .ok s') : SameCtl s s' := by
   unfold Machine.withMem at h
   split at h <;> simp only [reduceCtorEq, Out.ok.injEq] at h
@@ -245,6 +317,12 @@ macro "ctl_leaf" h:ident : tactic => `(tactic|
     | exact (pushVal_same $h).ctlOnly
     | exact execCallTo_ctl $h
     | exact execRet_ctl $h
+    | exact (execMul_same $h).ctlOnly
+    | exact (execImul1_same $h).ctlOnly
+    | exact (execImul2_same $h).ctlOnly
+    | exact (execImul3_same $h).ctlOnly
+    | exact (execDiv_same $h).ctlOnly
+    | exact (execIdiv_same $h).ctlOnly
     | exact (setFlagsW_same $h).1.ctlOnly
     | exact (writeReg_same $h).1.ctlOnly
     | exact (writeRM_same $h).1.ctlOnly
